@@ -182,7 +182,8 @@ fn split_top_level_or(input: &str) -> Vec<String> {
             }
             ' ' if !in_string && paren_depth == 0 => {
                 // Check if we're at " OR " boundary
-                if i + 4 <= len && &input[i..i + 4] == " OR " {
+                // compare characters: `i` is an index into `chars`, not a byte offset of `input`
+                if i + 4 <= len && chars[i..i + 4] == [' ', 'O', 'R', ' '] {
                     let trimmed = current.trim().to_string();
                     if !trimmed.is_empty() {
                         parts.push(trimmed);
